@@ -3,6 +3,7 @@ package transport
 import (
 	"encoding/json"
 	"fmt"
+	"unicode/utf8"
 
 	"github.com/aptpod/iscp-go/errors"
 	"github.com/aptpod/iscp-go/transport/compress"
@@ -36,6 +37,9 @@ type NegotiationParams struct {
 }
 
 func (p *NegotiationParams) Validate() error {
+	if err := p.validateUTF8(); err != nil {
+		return err
+	}
 	switch p.Encoding {
 	case "", EncodingNameJSON, EncodingNameProtobuf: // ok
 	default:
@@ -90,10 +94,29 @@ func (p *NegotiationParams) CompressConfig(base compress.Config) compress.Config
 	return base
 }
 
+// validateUTF8 は、文字列のパラメーターが正しい UTF-8 であることを検証します
+// （不正なバイト列は JSON 変換時に U+FFFD へ置き換えられ、別の値として伝わってしまいます）。
+func (p *NegotiationParams) validateUTF8() error {
+	for name, v := range map[string]string{
+		"enc":  string(p.Encoding),
+		"comp": string(p.Compress),
+		"tid":  string(p.TransportID),
+		"tgid": string(p.TransportGroupID),
+	} {
+		if !utf8.ValidString(v) {
+			return errors.Errorf("negotiation parameter %q is not valid UTF-8", name)
+		}
+	}
+	return nil
+}
+
 func (p *NegotiationParams) UnmarshalKeyValues(keyvals map[string]string) error {
 	// 文字列のbool値を適切に変換するための中間マップ
 	converted := make(map[string]interface{})
 	for k, v := range keyvals {
+		if !utf8.ValidString(k) || !utf8.ValidString(v) {
+			return fmt.Errorf("negotiation parameter %q is not valid UTF-8", k)
+		}
 		if k == "reconnect" {
 			switch v {
 			case "true":
@@ -120,6 +143,9 @@ func (p *NegotiationParams) UnmarshalKeyValues(keyvals map[string]string) error 
 }
 
 func (p *NegotiationParams) MarshalKeyValues() (map[string]string, error) {
+	if err := p.validateUTF8(); err != nil {
+		return nil, err
+	}
 	b, err := json.Marshal(p)
 	if err != nil {
 		return nil, err
